@@ -545,6 +545,181 @@ def validate_args_item():
             "Definition gen_validate_args (this_commit at_least_some again uses_git has_commit : bool) : option (list N) := %s.\n" % expr)
 
 
+def finish_item():
+    """RunTaskExecutable.finish_execution: the effects in program order -- which record files are written, when the
+    non-zero exit status raises, when the version's row is inserted and committed.  Effect codes: 1 args.json,
+    2 options.json, 3 raise TaskNonZeroExit, 4 insert_output_version, 5 commit_changes."""
+    f = _find_method("conductor/execution/ops/run_task_executable.py", "RunTaskExecutable", "finish_execution")
+    body = _body_without_docstring(f)
+    leaves = {"self._serialize_args_options": "ser", "not self._args.empty()": "(negb args_empty)", "not self._options.empty()": "(negb opts_empty)",
+              "handle.returncode != 0": "rc_nonzero", "self._version_to_record is not None": "has_version"}
+    ignore = {"handle.stdout.finish()", "handle.stderr.finish()"}
+    calls = [("self._args.serialize_json(", 1), ("self._options.serialize_json(", 2), ("ctx.version_index.insert_output_version(", 4), ("ctx.version_index.commit_changes(", 5)]
+
+    def cond(node):
+        src = ast.unparse(node)
+        if src in leaves:
+            return leaves[src]
+        raise Unsupported("condition outside the supported fragment: %s" % src)
+
+    def block(stmts):
+        """Coq term of type list N for a statement list (everything after a raise on a path is dropped)"""
+        if not stmts:
+            return "[]"
+        st, rest = stmts[0], stmts[1:]
+        src = ast.unparse(st)
+        if isinstance(st, ast.Assert) or (isinstance(st, ast.Expr) and src in ignore):
+            return block(rest)
+        if isinstance(st, ast.Expr) and isinstance(st.value, ast.Call):
+            for prefix, code in calls:
+                if src.startswith(prefix):
+                    return "(%d%%N :: %s)" % (code, block(rest))
+            raise Unsupported("call outside the supported fragment: %s" % src)
+        if isinstance(st, ast.Raise):
+            if isinstance(st.exc, ast.Call) and ast.unparse(st.exc.func) == "TaskNonZeroExit":
+                return "[3%N]"
+            raise Unsupported("raise outside the supported fragment: %s" % src)
+        if isinstance(st, ast.If) and not st.orelse:
+            then = block(st.body)
+            if then.endswith("[3%N]") and then.count("::") == 0:
+                # the branch raises: nothing after the `if` happens on that path
+                return "(if %s then [3%%N] else %s)" % (cond(st.test), block(rest))
+            return "((if %s then %s else []) ++ %s)" % (cond(st.test), then, block(rest))
+        raise Unsupported("statement outside the supported fragment: %s" % src)
+
+    return ("(* conductor/execution/ops/run_task_executable.py RunTaskExecutable.finish_execution: effects in program order *)\n"
+            "Definition gen_finish (rc_nonzero ser args_empty opts_empty has_version : bool) : list N := %s.\n" % block(body))
+
+
+def record_type_item():
+    """RunTaskExecutable.start_execution: the record type from record_output and the slot (0 NotRecorded, 1 Teed, 2 OnlyLogged)"""
+    f = _find_method("conductor/execution/ops/run_task_executable.py", "RunTaskExecutable", "start_execution")
+    target = None
+    for st in _walk_stmts(f.body):
+        if isinstance(st, ast.If) and ast.unparse(st.test) == "self._record_output":
+            target = st
+            break
+    if target is None:
+        raise Unsupported("no `if self._record_output:` in start_execution")
+    codes = {"RecordType.NotRecorded": 0, "RecordType.Teed": 1, "RecordType.OnlyLogged": 2}
+
+    def branch(stmts):
+        if len(stmts) == 1 and isinstance(stmts[0], ast.Assign) and ast.unparse(stmts[0].targets[0]) == "record_type" and ast.unparse(stmts[0].value) in codes:
+            return "%d%%N" % codes[ast.unparse(stmts[0].value)]
+        if len(stmts) == 1 and isinstance(stmts[0], ast.If) and ast.unparse(stmts[0].test) in ("slot is None", "slot is not None") and stmts[0].orelse:
+            a, b = branch(stmts[0].body), branch(stmts[0].orelse)
+            return "(if slot_none then %s else %s)" % ((a, b) if ast.unparse(stmts[0].test) == "slot is None" else (b, a))
+        raise Unsupported("record type selection outside the supported fragment: %s" % "; ".join(ast.unparse(x) for x in stmts))
+
+    if not target.orelse:
+        raise Unsupported("`if self._record_output:` has no else branch")
+    return ("(* conductor/execution/ops/run_task_executable.py start_execution: 0 NotRecorded, 1 Teed, 2 OnlyLogged *)\n"
+            "Definition gen_record_type (record_output slot_none : bool) : N := (if record_output then %s else %s).\n" % (branch(target.body), branch(target.orelse)))
+
+
+def combine_item():
+    """CombineOutputs.start_execution: what happens to ONE dependency, as a function of what the file system says
+    about its directory and about the entry found under its name.  Result codes: 0 skipped (continue), 1 the entry
+    is unlinked and the link made, 2 CombineOutputFileConflict, 3 the link is made (nothing was there)."""
+    f = _find_method("conductor/execution/ops/combine_outputs.py", "CombineOutputs", "start_execution")
+    loop = None
+    for st in _body_without_docstring(f):
+        if isinstance(st, ast.For) and ast.unparse(st.iter) == "self._deps_output_paths":
+            loop = st
+    if loop is None or loop.orelse:
+        raise Unsupported("no `for ... in self._deps_output_paths` loop in start_execution")
+    leaves = {"dep_dir.is_dir()": "is_dir", "any((True for _ in dep_dir.iterdir()))": "nonempty", "copy_into.is_symlink()": "is_link",
+              "_is_conductor_link(copy_into, dep_id, ctx)": "own", "copy_into.exists()": "exists_"}
+    ignore_targets = {"copy_into", "relative_to_target"}
+
+    def cond(node):
+        src = ast.unparse(node)
+        if src in leaves:
+            return leaves[src]
+        if isinstance(node, ast.UnaryOp) and isinstance(node.op, ast.Not):
+            return "(negb %s)" % cond(node.operand)
+        if isinstance(node, ast.BoolOp):
+            op = {ast.And: " && ", ast.Or: " || "}[type(node.op)]
+            return "(" + op.join(cond(v) for v in node.values) + ")"
+        raise Unsupported("condition outside the supported fragment: %s" % src)
+
+    def block(stmts, unlinked):
+        if not stmts:
+            raise Unsupported("a path through the loop body ends without continue / raise / symlink_to")
+        st, rest = stmts[0], stmts[1:]
+        src = ast.unparse(st)
+        if isinstance(st, ast.Continue):
+            return "0%N"
+        if isinstance(st, ast.Raise):
+            if isinstance(st.exc, ast.Call) and ast.unparse(st.exc.func) == "CombineOutputFileConflict":
+                return "2%N"
+            raise Unsupported("raise outside the supported fragment: %s" % src)
+        if isinstance(st, ast.Assign) and len(st.targets) == 1 and isinstance(st.targets[0], ast.Name) and st.targets[0].id in ignore_targets:
+            return block(rest, unlinked)
+        if isinstance(st, ast.Expr) and src == "copy_into.unlink()":
+            return block(rest, True)
+        if isinstance(st, ast.Expr) and src == "copy_into.symlink_to(relative_to_target)":
+            if rest:
+                raise Unsupported("statements after symlink_to in the loop body")
+            return "1%N" if unlinked else "3%N"
+        if isinstance(st, ast.If):
+            return "(if %s then %s else %s)" % (cond(st.test), block(list(st.body) + rest, unlinked), block(list(st.orelse) + rest, unlinked))
+        raise Unsupported("statement outside the supported fragment: %s" % src)
+
+    return ("(* conductor/execution/ops/combine_outputs.py CombineOutputs.start_execution, one iteration: 0 continue, 1 unlink + link, 2 conflict, 3 link *)\n"
+            "Definition gen_combine_decision (is_dir nonempty is_link own exists_ : bool) : N := %s.\n" % block(list(loop.body), False))
+
+
+def gc_item():
+    """cli/gc.py main: what happens to ONE entry of the directory being scanned.  Result codes: 0 nothing (continue),
+    1 pushed on the stack (explored later), 2 appended to to_delete."""
+    f = _find_function("conductor/cli/gc.py", "main")
+    loop = None
+    for st in _walk_stmts(f.body):
+        if isinstance(st, ast.For) and ast.unparse(st.iter) == "curr_path.iterdir()":
+            loop = st
+    if loop is None or loop.orelse:
+        raise Unsupported("no `for inner in curr_path.iterdir()` loop in gc.main")
+    leaves = {"inner.is_symlink()": "(negb real_dir)", "not inner.is_dir()": "(negb real_dir)", "exp_match is None": "(negb exp_match)",
+              "_REGULAR_TASK_REGEX.match(inner.name) is None": "(negb reg_match)", "(task_identifier, timestamp) not in all_versions": "(negb recorded)"}
+    ignore_targets = {"exp_match": "_EXPERIMENT_TASK_REGEX.match(inner.name)", "task_name": 'exp_match.group("name")' , "timestamp": 'int(exp_match.group("timestamp"))',
+                      "task_path": "inner.parent.relative_to(output_path)", "task_identifier": "TaskIdentifier(task_path, task_name)"}
+
+    def cond(node):
+        src = ast.unparse(node)
+        if src in leaves:
+            return leaves[src]
+        if isinstance(node, ast.BoolOp) and isinstance(node.op, ast.Or) and all(ast.unparse(v) in leaves for v in node.values):
+            # `inner.is_symlink() or not inner.is_dir()`: not a directory of its own (Path.is_dir follows links)
+            vals = {leaves[ast.unparse(v)] for v in node.values}
+            if vals == {"(negb real_dir)"}:
+                return "(negb real_dir)"
+        raise Unsupported("condition outside the supported fragment: %s" % src)
+
+    def block(stmts, action):
+        if not stmts:
+            return action
+        st, rest = stmts[0], stmts[1:]
+        src = ast.unparse(st)
+        if isinstance(st, ast.Continue):
+            return action
+        if isinstance(st, ast.Assign) and len(st.targets) == 1 and isinstance(st.targets[0], ast.Name) and st.targets[0].id in ignore_targets:
+            want = ignore_targets[st.targets[0].id].replace('"', "'")
+            if ast.unparse(st.value) != want:
+                raise Unsupported("`%s` is not computed as `%s`" % (st.targets[0].id, want))
+            return block(rest, action)
+        if isinstance(st, ast.Expr) and src == "stack.append(inner)":
+            return block(rest, "1%N")
+        if isinstance(st, ast.Expr) and src == "to_delete.append(inner)":
+            return block(rest, "2%N")
+        if isinstance(st, ast.If):
+            return "(if %s then %s else %s)" % (cond(st.test), block(list(st.body) + rest, action), block(list(st.orelse) + rest, action))
+        raise Unsupported("statement outside the supported fragment: %s" % src)
+
+    return ("(* conductor/cli/gc.py main, one directory entry: 0 continue, 1 explore later, 2 delete *)\n"
+            "Definition gen_gc_decision (real_dir exp_match reg_match recorded : bool) : N := %s.\n" % block(list(loop.body), "0%N"))
+
+
 def version_item():
     """VersionIndex.generate_new_output_version: the timestamp as a function of the clock and the last timestamp"""
     f = _find_method("conductor/execution/version_index.py", "VersionIndex", "generate_new_output_version")
@@ -609,7 +784,7 @@ def generate():
         failures["task_type_table"] = "%s: %s" % (type(ex).__name__, ex)
         parts.append("(* task_type_table: NOT TRANSLATED: %s *)\n" % str(ex).replace("*)", "* )"))
     for coqname, fn in (("gen_gate_open", gate_item), ("gen_new_version", version_item), ("gen_loop_goes_on", loop_item), ("gen_wants_slot", slot_item),
-                        ("gen_prune", prune_item), ("gen_should_run", should_run_item), ("gen_validate_args", validate_args_item)):
+                        ("gen_prune", prune_item), ("gen_should_run", should_run_item), ("gen_validate_args", validate_args_item), ("gen_finish", finish_item), ("gen_record_type", record_type_item), ("gen_combine_decision", combine_item), ("gen_gc_decision", gc_item)):
         try:
             parts.append(fn())
         except Exception as ex:  # pylint: disable=broad-except
